@@ -182,10 +182,10 @@ def campaigns(tier):
     thorough = tier == "thorough"
     cs = []
     if thorough:
-        cs.append(Campaign("bounded_m1-4", "enum", execute=exec_bounded, exhaustive=True,
+        cs.append(Campaign("bounded", "enum", execute=exec_bounded, exhaustive=True,
                            cases=lambda s, n: _bounded_cases(s, n, 1, 4)))
     else:
-        cs.append(Campaign("bounded_m1-3", "enum", execute=exec_bounded, exhaustive=True,
+        cs.append(Campaign("bounded", "enum", execute=exec_bounded, exhaustive=True,
                            cases=lambda s, n: _bounded_cases(s, n, 1, 3)))
         cs.append(Campaign("bounded_m4_every8th", "enum", execute=exec_bounded, exhaustive=False,
                            cases=lambda s, n: _bounded_cases(s, n, 4, 4, stride=8)))
